@@ -1164,9 +1164,11 @@ def _named_values(fn, self_unstable=None):
                             b_ = x.value
                             while isinstance(b_, (ast.Subscript, ast.Attribute)):
                                 b_ = b_.value
-                            if (isinstance(b_, ast.Name) and b_.id in rhs_names) or (isinstance(x, ast.Attribute) and x.attr in rhs_attrs):
+                            # a store INTO an object matters only if the expression reads that object's contents / that attribute;
+                            # a plain alias (`k = klong`) still denotes the same object afterwards
+                            if (isinstance(x, ast.Subscript) and isinstance(b_, ast.Name) and b_.id in content_names) or (isinstance(x, ast.Attribute) and x.attr in rhs_attrs):
                                 dirty = True
-                        elif isinstance(x, ast.Call) and isinstance(x.func, ast.Attribute) and x.func.attr in MUTATORS and isinstance(x.func.value, ast.Name) and x.func.value.id in rhs_names:
+                        elif isinstance(x, ast.Call) and isinstance(x.func, ast.Attribute) and x.func.attr in MUTATORS and isinstance(x.func.value, ast.Name) and x.func.value.id in content_names:
                             dirty = True
                         elif isinstance(x, ast.Name) and isinstance(x.ctx, ast.Store) and x.id in rhs_names:
                             dirty = True
@@ -1435,6 +1437,20 @@ def _cm_class(cls, call, var, body):
     sf = SelfFields()
     nbody = [sf.visit(s_) for s_ in nbody]
     ebody = [sf.visit(s_) for s_ in ebody]
+    # locals of __enter__ / __exit__ must not capture names of the function they are spliced into
+    own = set()
+    for s_ in nbody + ebody:
+        for n in ast.walk(s_):
+            if isinstance(n, ast.Name) and isinstance(n.ctx, (ast.Store, ast.Del)) and n.id not in fields.values():
+                own.add(n.id)
+            elif isinstance(n, ast.ExceptHandler) and n.name:
+                own.add(n.name)
+    if var is not None:
+        own -= {x.id for x in ast.walk(var) if isinstance(x, ast.Name)}
+    if own:
+        rn = _Renamer({k: k + suffix for k in own})
+        nbody = [rn.visit(s_) for s_ in nbody]
+        ebody = [rn.visit(s_) for s_ in ebody]
     return out + nbody + [ast.Try(body=body, handlers=[], orelse=[], finalbody=ebody or [ast.Pass()])]
 
 
